@@ -148,6 +148,11 @@ inline Problem make_problem(const std::string& fam, int n, uint64_t mseed, doubl
         for (int i = 0; i + 1 < n; i += 2) { double a = 1.0 + i, b = 0.5 + 0.1 * i; p.A(i, i) = a; p.A(i + 1, i + 1) = a; p.A(i, i + 1) = b; p.A(i + 1, i) = b; }
         if (n % 2) p.A(n - 1, n - 1) = 7.0;
     }
+    else if (fam == "rowsum")
+    {   // path-graph Laplacian + 3 I: small integers, constant row sums 3, so the all-ones vector is an exact eigenvector (exactly in floating point for n a perfect square)
+        p.A = Mat::Zero(n, n);
+        for (int i = 0; i < n; i++) { p.A(i, i) = 3.0 + ((i > 0) ? 1.0 : 0.0) + ((i + 1 < n) ? 1.0 : 0.0); if (i + 1 < n) { p.A(i, i + 1) = -1.0; p.A(i + 1, i) = -1.0; } }
+    }
     else if (fam == "integer")
     {
         p.A = Mat::Zero(n, n);
@@ -202,6 +207,10 @@ inline void make_general(Problem& p, const std::string& gfam, uint64_t mseed, do
         if (D(n - 1, n - 1) == 0.0 && (n < 2 || D(n - 1, n - 2) == 0.0)) D(n - 1, n - 1) = -3.5 - n;
         Mat Q = Mat::Zero(n, n); Q.topLeftCorner(kb, kb) = rand_orth(kb, r); Q.bottomRightCorner(n - kb, n - kb) = rand_orth(n - kb, r);
         A = Q * D * Q.transpose();
+    }
+    else if (gfam == "growsum")
+    {   // nonsymmetric small integers with constant row sums 3: the all-ones vector is an exact right eigenvector
+        for (int i = 0; i < n; i++) { A(i, i) = 3.0 - 2.0 - ((i >= 2) ? 1.0 : 0.0); A(i, (i + 1) % n) += 2.0; if (i >= 2) A(i, i - 2) += 1.0; }
     }
     else if (gfam == "gtriangular") { for (int i = 0; i < n; i++) { A(i, i) = 1.0 + i; for (int j = i + 1; j < n; j++) A(i, j) = 0.3 * r.sym(); } }
     else if (gfam == "gskew") { for (int i = 0; i < n; i++) for (int j = 0; j < i; j++) { double v = r.sym() + (i == j + 1 ? 1.0 + j : 0.0); A(i, j) = v; A(j, i) = -v; } }
@@ -578,6 +587,7 @@ inline CVec start_vector(const IRunner& r, const std::string& spec)
     const int n = r.prob.n; CVec v(n);
     if (spec.size() && spec[0] == 'r') { Rng g(std::stoull(spec.substr(1))); for (int i = 0; i < n; i++) v[i] = r.complex_scalar() ? cd(g.sym(), g.sym()) : cd(g.sym(), 0); return v; }
     if (spec == "zero") { v.setZero(); return v; }
+    if (spec == "ones") { v.setOnes(); return v; }
     if (spec.size() && spec[0] == 'g')
     {   // k-th eigenvector of the pencil (A, B): an exact one-dimensional invariant subspace of every generalized mode
         Eigen::GeneralizedSelfAdjointEigenSolver<Mat> es(r.prob.A, r.prob.B); int k = std::stoi(spec.substr(1)) % n;
